@@ -22,7 +22,8 @@ GEO = dict(cls="uniform", dims=[3, 4], order="F", reversed=False, increase=[True
 GEO_RELAYOUT = dict(GEO, order="C", reversed=True, increase=[True, False])
 GEO_OTHER = dict(GEO, dims=[4, 4])
 GEO_FLIP = dict(GEO, increase=[True, False])  # same data shape as GEO, other orientation
-GRIDS = {"G": GEO, "Gr": GEO_RELAYOUT, "Gf": GEO_FLIP, "X": GEO_OTHER}
+GEO_CRS = dict(GEO_RELAYOUT, crs="EPSG:32632")  # the numbers of G, in a declared coordinate reference system
+GRIDS = {"G": GEO, "Gr": GEO_RELAYOUT, "Gf": GEO_FLIP, "X": GEO_OTHER, "Gc": GEO_CRS}
 
 
 def grid_of(code):
@@ -193,7 +194,7 @@ def grid_compatible(a, b):
         return True
     if a[0] in "NU" or b[0] in "NU":
         return a == b  # grid-less data: same dimensionality and extents; the unstructured mesh: same data location
-    return GRIDS[a]["dims"] == GRIDS[b]["dims"]
+    return GRIDS[a]["dims"] == GRIDS[b]["dims"] and GRIDS[a].get("crs") == GRIDS[b].get("crs")
 
 
 def mask_accept(prod, cons, prod_grid, cons_grid):
@@ -229,7 +230,7 @@ class C07(Property):
 
     def gen(self, rnd, i, tier):
         def side(is_prod):
-            g = rnd.choice([None, "G", "G", "Gr", "Gf", "X", "N0", "N1a", "N1b", "G", "Gr", "Uc", "Up"])
+            g = rnd.choice([None, "G", "G", "Gr", "Gf", "X", "N0", "N1a", "N1b", "G", "Gr", "Uc", "Up", "Gc"])
             return dict(
                 time=rnd.random() < 0.7,
                 grid=g,
@@ -248,6 +249,8 @@ class C07(Property):
                     c["grid"] = rnd.choice([None, p["grid"], "Gr" if p["grid"] == "G" else p["grid"], "Gf" if p["grid"] == "G" else p["grid"]]) if p["grid"] else rnd.choice(["G", "Gr", "Gf", "N0", "Uc"])
                     if (p["grid"] or "-")[0] == "U" and rnd.random() < 0.3:
                         c["grid"] = rnd.choice(["Uc", "Up"])
+                    if "Gc" in (p["grid"], c["grid"]) and rnd.random() < 0.5:
+                        c["grid"] = rnd.choice(["G", "Gc", "Gr"])
                 if rnd.random() < 0.8:
                     c["units"] = rnd.choice([None, "m", "km"]) if p["units"] in ("m", "km") else rnd.choice([None, p["units"]])
                 if rnd.random() < 0.8:
@@ -255,6 +258,14 @@ class C07(Property):
         adapter = rnd.choice([None, None, None, "scale", "scale", "v2g", "g2v", "regrid", "sum", "relay"])
         if ncons == 2 and adapter not in (None, "scale"):
             adapter = None
+        if adapter in (None, "scale") and ncons == 1 and p["grid"] is None and rnd.random() < 0.5:
+            p["mask"] = "rawA"  # a mask array declared without a grid: checked against the grid the consumer brings
+            cons[0]["grid"] = rnd.choice(["G", "G", "X", "Gr", "Gf", None])
+            cons[0]["mask"] = rnd.choice(["FLEX", None, "A", "B", "NONE"])
+        if adapter == "v2g" and rnd.random() < 0.6:
+            # a single value spread over the consumer's grid: grid-less producer, gridded consumer, plain masks
+            p.update(grid=rnd.choice([None, "N0"]), mask=rnd.choice(["FLEX", "NONE"]))
+            cons[0].update(grid=rnd.choice(["G", "Gr", "Gf", "X"]), mask=rnd.choice(["FLEX", None]))
         if adapter == "relay" and rnd.random() < 0.7:
             p.update(time=True, grid=p["grid"] or "G", mask="FLEX", foo=rnd.choice(["absent", "value"]))
             if rnd.random() < 0.7:
@@ -313,6 +324,8 @@ class C07(Property):
                 if cgrid not in (None, "N0"):
                     return ("unconstrained" if cgrid in ("N1a", "N1b") else "error"), None, cgrid in ("N1a", "N1b") or unconstrained
                 eff_pgrid = "N0"
+            elif ada == "regrid" and "Gc" in (pgrid, cgrid):
+                return "unconstrained", None, True  # transforming between reference systems is the regridding adapter's own subject
             elif ada == "regrid":
                 # the regridding adapter defines its own output mask: only the plain FLEX/FLEX case is judged here (C16)
                 if pgrid in (None, "N0", "N1a", "N1b") or cgrid in (None, "N0", "N1a", "N1b") or c["mask"] != "FLEX" or p["mask"] != "FLEX":
@@ -340,13 +353,23 @@ class C07(Property):
             # masks (on a grid-less link fixed masks cannot be expressed in this catalogue)
             pm, cm = p["mask"], c["mask"]
             NOG = (None, "N0", "N1a", "N1b", "Uc", "Up")
-            if (pm in ("A", "B") and (pgrid in NOG)) or (cm in ("A", "B", "rawA") and (cgrid in NOG and pgrid in NOG)):
+            mgrid = pgrid  # the grid whose layout the producer's mask array is written in
+            if pm == "rawA":
+                # producer declares a mask array but leaves its grid to the consumer: the array must fit the grid it receives
+                if ada not in (None, "scale") or len(cons) != 1 or pgrid is not None:
+                    return "unconstrained", None, True
+                if cgrid in ("X", "Gr"):
+                    return "error", None, unconstrained  # the declared mask has another shape than the data of that grid
+                if cgrid != "G":
+                    return "unconstrained", None, True
+                pm, mgrid = "A", "G"
+            if (pm in ("A", "B") and (mgrid in NOG)) or (cm in ("A", "B", "rawA") and (cgrid in NOG and pgrid in NOG)):
                 return "unconstrained", None, True
             if cm in ("A", "B", "rawA") and (cgrid in ("N0", "N1a", "N1b", "Uc", "Up") or (cgrid is None and pgrid in NOG)):
                 return "unconstrained", None, True
             if cm == "rawA" and (cgrid or pgrid) not in ("G", "Gf"):
                 return "unconstrained", None, True  # raw array of other shape: constructing the Info already fails
-            if not mask_accept(pm, cm, pgrid, cgrid):
+            if not mask_accept(pm, cm, mgrid, cgrid):
                 return "error", None, unconstrained
             fmask = pm if cm in ("FLEX", None) else ("A" if cm == "rawA" else cm)
             # time
@@ -373,7 +396,7 @@ class C07(Property):
                 return dict(foo=None)
             return {}
 
-        pinfo = fm.Info(time=T0 if p["time"] else None, grid=grid_of(p["grid"]), units=p["units"], mask=mask_of(p["mask"], p["grid"]), **meta(p, "P"))
+        pinfo = fm.Info(time=T0 if p["time"] else None, grid=grid_of(p["grid"]), units=p["units"], mask=located_mask("G", 0.0) if p["mask"] == "rawA" else mask_of(p["mask"], p["grid"]), **meta(p, "P"))
         if p["grid"] in GRIDS:
             payload = mg.located(GRIDS[p["grid"]])
             if p["mask"] in ("A", "B"):
@@ -494,6 +517,13 @@ class C07(Property):
                         out.viol("delivered_mask_vs_metadata", f"C{k}: delivered mask differs from the agreed fixed mask; {tag}", spec=spec)
                         return out
                     out.count("data_checked_against_metadata")
+                elif ada == "v2g" and e["grid"] in GRIDS and e["mask"] in ("FLEX", "NONE") and p["grid"] in (None, "N0"):
+                    # the single value spread over the grid, in the units the two ends agreed on
+                    expv = float(o_convert(np.array(7.0), p["units"], e["units"]))
+                    if mag.shape != (1,) + tuple(grid_of(e["grid"]).data_shape) or not np.allclose(np.ma.getdata(mag), expv, rtol=1e-9):
+                        out.viol("delivered_data_vs_metadata", f"C{k}: value 7.0 {p['units']} spread over the grid arrives as {np.ma.getdata(mag).ravel()[:3].tolist()} {data.units}, expected {expv} {e['units']}; {tag}", spec=spec)
+                        return out
+                    out.count("value_to_grid_data_checked")
             if relay is not None:
                 # the relay's own link ends: its input agrees with the producer, each output carries its own key only
                 rin, o1, o2 = relay.inputs["in"].info, relay.outputs["out"].info, relay.outputs["out2"].info
@@ -524,7 +554,7 @@ class C07(Property):
 
     def coverage_gaps(self, counters, tier):
         need = ["exchanges", "successful_exchanges", "rejected_exchanges", "two_consumer_cases", "fixed_mask_metadata_checked", "data_checked_against_metadata",
-                "adapter_None", "adapter_scale", "adapter_v2g", "adapter_g2v", "adapter_regrid", "adapter_sum", "adapter_relay", "relay_links_checked", "metadata_handed_over_on_every_round", "static_outputs"]
+                "adapter_None", "adapter_scale", "adapter_v2g", "adapter_g2v", "adapter_regrid", "adapter_sum", "adapter_relay", "relay_links_checked", "metadata_handed_over_on_every_round", "static_outputs", "value_to_grid_data_checked"]
         return [f"{k} never observed" for k in need if not counters.get(k)]
 
 
